@@ -157,7 +157,7 @@ def array_csv(ctx):
         if len(rl) == 1:
             t, m, inner = rl[0]
             ci, oi = t.var, m.var
-            okloops = t.n is T.app('len_of', data, AX(0)) and m.n is T.app('len_of', T.app('index_axis', data, AX(0), ci), AX(0)) and isinstance(t.elem, Tup) and isinstance(m.elem, Tup) \
+            okloops = t.n is index_term(T.app('shape', data), N(0)) and m.n is index_term(T.app('shape', T.app('index_axis', data, AX(0), ci)), N(0)) and isinstance(t.elem, Tup) and isinstance(m.elem, Tup) \
                 and ev.t(t.elem.items[0]) is ci and ev.t(m.elem.items[0]) is oi
             j = S('k#j')
             row = T.app('concat', T.app('array', T.app('to_string', ci), T.app('to_string', oi)), mk_comp(nd, j, T.app('to_string', sel(data, ci, oi, j))))
@@ -233,7 +233,7 @@ def array_arrow_like(ctx, path, pfx, closer):
     else:
         t, m, inner = rl[0]
         ci, oi = t.var, m.var
-        okloops = t.n is T.app('len_of', data, AX(0)) and m.n is T.app('len_of', T.app('index_axis', data, AX(0), ci), AX(0)) and isinstance(t.elem, Tup) and ev.t(t.elem.items[0]) is ci \
+        okloops = t.n is index_term(T.app('shape', data), N(0)) and m.n is index_term(T.app('shape', T.app('index_axis', data, AX(0), ci)), N(0)) and isinstance(t.elem, Tup) and ev.t(t.elem.items[0]) is ci \
             and isinstance(m.elem, Tup) and ev.t(m.elem.items[0]) is oi and isinstance(inner[0].elem, Tup) and ev.t(inner[0].elem.items[0]) is inner[0].var \
             and canon_nd(inner[0].n, {data: 3}) is nd
         ctx.check(pfx + '.values.loops', A, 'loops', okloops, expected='chain loop over axis 0, observation loop over axis 1, dim loop over axis 2, indices from enumerate', found='n=%s / %s / %s' % (show(t.n)[:80], show(m.n)[:80], show(inner[0].n)[:80]), sp=t.sp,
